@@ -106,7 +106,11 @@ func genC15(r *Rand, tier string, ord int) *Trial {
 		} else {
 			w := r.Range(6, 40)
 			var q Aln
-			ref, _, q = genUpdownAln(r, w, 0, r.Range(1, 7))
+			nseq := r.Range(1, 7)
+			if kind == "variants-stdin" && r.P(0.15) {
+				nseq = r.Range(49, 60) // the stdin path hands over the first record through a 50+threads buffer
+			}
+			ref, _, q = genUpdownAln(r, w, 0, nseq)
 			an = genAnno(r, ref, true, 0.1)
 			all := Aln{Names: append([]string{"ref"}, q.Names...), Seqs: append([]string{ref}, q.Seqs...)}
 			c = &Case{Cmd: "variants", Files: map[string]string{"msa": all.FASTA(genLayout(r))}}
